@@ -15,6 +15,7 @@ seen=[]
 for x in c:
     if x not in seen: seen.append(x)
 print(' '.join(seen) if seen else m['property'])")
+  if grep -q "\"status\": \"moot" "$d/meta.json"; then echo "$name: moot (see meta.json)"; continue; fi
   if ! git -C /repo apply --check "$PWD/$d/patch.diff" 2>/dev/null; then echo "$name: STALE (patch does not apply to the current tree)"; continue; fi
   res="MISSED"
   for c in $checks; do
